@@ -112,11 +112,33 @@ fn target_near(u: &[UNode], rng: &mut Rng) -> [u8; 20] {
     }
 }
 
+/// Every node on its own IP address, most ids in the two farthest buckets: those buckets FILL UP (20 entries), with secure and
+/// insecure ids mixed, and some secure ids in nearer buckets. Full buckets are where the stale-head replacement, the "never
+/// evict a fresh node" rule and any shortcut in closest() that looks at one bucket only become visible.
+fn universe_full(rng: &mut Rng, tid: &[u8; 20], n: usize) -> Vec<UNode> {
+    let mut u: Vec<UNode> = vec![];
+    for i in 0..n {
+        let ip = if rng.chance(1, 4) { Ipv4Addr::new(10, 9, (i / 200) as u8, (i % 200) as u8 + 1) } else { Ipv4Addr::new(60 + (i % 120) as u8, 1 + (i / 120) as u8, rng.below(250) as u8, 1 + rng.below(250) as u8) };
+        let style = rng.below(10);
+        let id = if style < 6 {
+            id_at_distance(tid, *rng.pick(&[160u32, 160, 160, 159]), rng)
+        } else if style < 9 {
+            crypto::bep42_id(ip, rng.id())
+        } else {
+            id_at_distance(tid, *rng.pick(&[158u32, 150, 120, 40]), rng)
+        };
+        u.push(UNode { id, addr: SocketAddrV4::new(ip, 6881), sec: crypto::bep42_valid(&id, ip) });
+    }
+    u
+}
+
 pub fn behaviour(b: u64, rng: &mut Rng, out: &mut Out, big: bool, big_hi: u64) -> (u64, Value) {
     v::reset_clock();
     let tid = rng.id();
-    let n = if big { rng.range(big_hi / 2, big_hi) as usize } else { rng.range(4, 45) as usize };
-    let u = universe(rng, &tid, n, if big { 1 + (b % 2) * 2 } else { b });
+    // every other big behaviour fills buckets up
+    let full = big && b % 2 == 1;
+    let n = if full { rng.range(48, 72) as usize } else if big { rng.range(big_hi / 2, big_hi) as usize } else { rng.range(4, 45) as usize };
+    let u = if full { universe_full(rng, &tid, n) } else { universe(rng, &tid, n, if big { 1 + (b % 2) * 2 } else { b }) };
     let mut index = HashMap::new();
     for (i, x) in u.iter().enumerate() {
         index.entry((x.id, x.addr)).or_insert(i);
@@ -125,10 +147,11 @@ pub fn behaviour(b: u64, rng: &mut Rng, out: &mut Out, big: bool, big_hi: u64) -
         "nodes": u.iter().map(|x| json!({"id":id_json(&x.id),"ip":x.addr.ip().to_string(),"port":x.addr.port(),"sec":x.sec})).collect::<Vec<_>>()}));
     let mut table = RoutingTable::new(Id::from(tid));
     let mut ops = 0u64;
-    let nops = if big { n as u64 + 30 } else { rng.range(10, 70) };
+    let nops = if full { n as u64 + 60 } else if big { n as u64 + 30 } else { rng.range(10, 70) };
     let mut sample_ops = vec![];
     for step in 0..nops {
-        let w = if big && step < n as u64 { 0 } else if big { 77 + rng.below(23) } else { rng.below(100) };
+        // full: after the initial adds, more adds against the full buckets, ageing across the staleness boundary, removals, closest()
+        let w = if big && step < n as u64 { 0 } else if full { *rng.pick(&[0u64, 0, 0, 56, 64, 64, 80, 80, 80, 80, 95]) } else if big { 77 + rng.below(23) } else { rng.below(100) };
         let ev = if w < 55 {
             let i = if big && step < n as u64 { step as usize } else { rng.below(u.len() as u64) as usize };
             let ret = table.add(Node::new(Id::from(u[index[&(u[i].id, u[i].addr)]].id), u[i].addr));
